@@ -50,7 +50,17 @@ func (s *State) Clone() *State {
 // comp returns the current term of a heap component, creating its initial constant on demand.
 func (u *Unit) comp(s *State, name string, so Sort) Term {
 	if t, ok := s.Heap[name]; ok {
+		if u.specDepth > 0 {
+			u.needTyping(t.S)
+		}
 		return t
+	}
+	if u.specDepth > 0 {
+		defer func() {
+			for _, suffix := range []string{fmt.Sprintf("@%d", s.Epoch), "@0"} {
+				u.needTyping(name + suffix)
+			}
+		}()
 	}
 	if strings.HasPrefix(name, "GF$") {
 		// ghost fields are never changed by real code: a full havoc of the heap does not touch them
